@@ -682,8 +682,8 @@ func genC05(cw *caseWriter, seed uint64, tier string) {
 		// lines that GROW on the way out (six-byte escapes of <, > and &; null columns added; base64) past the sizes a
 		// reader might stop at (4 KiB, 64 KiB, 1 MiB): what was written is still read back and written again
 		cols := []colDesc{{name: "id", format: "numeric", ty: "none"}, {name: "html", format: "string", ty: "none"}, {name: "b", format: "binary", ty: "none"}, {name: "late", format: "string", ty: "none"}}
-		for _, reps := range []int{100, 700, 9000, 12000, 150000} {
-			if reps > 12000 && tier != "thorough" {
+		for _, reps := range []int{700, 9000, 150000} {
+			if reps > 9000 && tier != "thorough" {
 				continue
 			}
 			emitTwice(cw, z.name, cols, cols, []byte(`{"id":1,"html":"`+strings.Repeat("<br>", reps)+`"}`))
